@@ -41,12 +41,12 @@ DESIGN_REF = "DESIGN.md section 4, C04"
 _MM = {}
 
 
-def _mm(t, many=False):
-    key = (t, many)
+def _mm(t, many=False, group=False):
+    key = (t, many, group)
     if key not in _MM:
         from textx import metamodel_from_str
 
-        _MM[key] = metamodel_from_str(f"Model: v{'*' if many else ''}={t};")
+        _MM[key] = metamodel_from_str(f"Model: v{'*' if many else ''}={t};", **({"use_regexp_group": True} if group else {}))
     return _MM[key]
 
 
@@ -122,12 +122,30 @@ def _parse(t, text, many=False):
     from textx.exceptions import TextXError
 
     try:
-        return "ok", _mm(t, many).model_from_str(text).v
+        res = ("ok", _mm(t, many).model_from_str(text).v)
     except TextXError as e:
-        return "err", e
+        res = ("err", e)
+    # the built-in base types have no documented regexp-group semantics: use_regexp_group=True must not change the outcome
+    try:
+        res2 = ("ok", _mm(t, many, True).model_from_str(text).v)
+    except TextXError as e:
+        res2 = ("err", e)
+    if res[0] != res2[0] or (res[0] == "ok" and (repr(res[1]), type(res[1])) != (repr(res2[1]), type(res2[1]))):
+        _GROUP_DIFFS.append(f"{t} on {text!r}: default {res[0]} {res[1]!r}, use_regexp_group=True {res2[0]} {res2[1]!r}")
+    return res
+
+
+_GROUP_DIFFS = []
 
 
 def evaluate(case):
+    out = _evaluate(case)
+    while _GROUP_DIFFS:
+        out.add("use_regexp_group_changes_base_type_value", _GROUP_DIFFS.pop())
+    return out
+
+
+def _evaluate(case):
     out = Outcome()
     k = case["k"]
     if k == "str":
